@@ -6,7 +6,7 @@
   Specifications: Buidl.Spec.RFC6979 (nonce generation, abstract HMAC), Buidl.Spec.ECDSA.Valid.
   `hmac` is an arbitrary function with 32-byte outputs.
 -/
-import Buidl.Proofs.ECDSA
+import Buidl.Proofs.ECDSAGroup
 namespace Buidl.Props.C01
 open Buidl Buidl.EC Buidl.ECDSA
 
@@ -101,5 +101,57 @@ theorem out_of_range_rejected (Q : Pt) (z r s : Nat) (h : r = 0 ∨ s = 0 ∨ r 
 /-- in particular the F01a witness `(r, s + N)` is rejected -/
 theorem F01a_fixed (Q : Pt) (z r s : Nat) : verify Q z r (s + N) = some false :=
   verify_out_of_range Q z r (s + N) (Or.inr (Or.inr (Or.inr (by omega))))
+
+/-! ## verification is the ECDSA predicate (N prime: Fermat inverse; group law not needed) -/
+
+/-- soundness: S256Point.verify answers true only for tuples with r, s ∈ [1, n-1] that satisfy the
+    ECDSA equation `x(z s⁻¹ G + r s⁻¹ Q) ≡ r (mod n)` (F01a repaired) -/
+theorem verify_sound (Q : Pt) (z r s : Nat) (h : verify Q z r s = some true) : Spec.ECDSA.Valid Q z r s :=
+  verify_sound' Q z r s h
+
+/-- completeness: a tuple satisfying the predicate is accepted.  Explicit hypothesis for the negligible
+    event: the x coordinate of the point computed lies below n (the code compares `x == r` without
+    reducing x modulo n; x ∈ [n, p) has probability ≈ 2⁻¹²⁸ and no instance is known). -/
+theorem verify_complete (Q : Pt) (z r s : Nat) (h : Spec.ECDSA.Valid Q z r s)
+    (hx : ∀ x y, sadd (smul ((z * powmod s (N - 2) N : Nat) : Int) G)
+      (smul ((r * powmod s (N - 2) N : Nat) : Int) Q) = .aff x y → x < N) :
+    verify Q z r s = some true :=
+  verify_complete' Q z r s h hx
+
+/-- hence: anything accepted has r, s in range — "never accepted" for every out-of-range tuple -/
+theorem verify_true_in_range (Q : Pt) (z r s : Nat) (h : verify Q z r s = some true) :
+    1 ≤ r ∧ r < N ∧ 1 ≤ s ∧ s < N :=
+  verify_true_range Q z r s h
+
+/-! ## sign → verify (group law of secp256k1, order of G, N prime) -/
+
+/-- For every secret `d`, every nonce `k ∈ [1, n-1]` and every digest `z`: when the signing equation
+    yields `(r, s)` with `s ≠ 0` and `r = x(kG) < n` (explicit hypotheses for the two negligible events),
+    verification under the public key `dG` accepts — including after the low-S flip (`x(−R) = x(R)`). -/
+theorem verify_signWith (k d z r s : Nat) (hk1 : 1 ≤ k) (hk2 : k < N)
+    (h : signWith k d z = some (r, s)) (hr : r < N) (hs0 : s ≠ 0) :
+    verify (smul (d : Int) G) z r s = some true :=
+  ECDSA.verify_signWith k d z r s hk1 hk2 h hr hs0
+
+/-- the same for PrivateKey.sign with its RFC 6979 nonce, for every HMAC and loop bound -/
+theorem verify_sign (hmac : Bytes → Bytes → Bytes) (fuel d z r s : Nat)
+    (h : sign hmac fuel d z = .ok (r, s)) (hr : r < N) (hs0 : s ≠ 0) :
+    verify (smul (d : Int) G) z r s = some true := by
+  simp only [sign] at h
+  split at h
+  · cases h
+  · split at h
+    · cases h
+    · next k hk =>
+      split at h
+      · cases h
+      · next rs hrs =>
+        injection h with h; subst h
+        obtain ⟨hk1, hk2⟩ := ECDSA.deterministicK_range hmac fuel d z k hk
+        exact ECDSA.verify_signWith k d z r s hk1 hk2 hrs hr hs0
+
+/-- the hypotheses of `verify_signWith` are satisfiable: k = d = 1, z = 0 -/
+example : signWith 1 1 0 = some (55066263022277343669578718895168534326250603453777594175500187360389116729240, 55066263022277343669578718895168534326250603453777594175500187360389116729240) ∧ 55066263022277343669578718895168534326250603453777594175500187360389116729240 < N := by
+  decide +kernel
 
 end Buidl.Props.C01
